@@ -5,6 +5,8 @@ S = os.path.join(os.path.dirname(os.path.dirname(os.path.abspath(__file__))), "s
 D = {
  "C01-A": ("C01", "__verify_config_post: the 'config->key' term is dropped from the empty-signature test", "a checker that holds a key (alg not pinned) and a token with alg none and an empty signature"),
  "C01-B": ("C01", "jwt_strcmp runs a fixed 64 rounds instead of the longer length", "two strings that agree on their first 64 characters and have equal length bits, e.g. HS384/HS512 signatures differing only after position 64"),
+ "C01-C": ("C01", "__check_key_type refuses keys with use=enc by returning 1 WITHOUT writing an error; the asymmetric verify branch only breaks out", "a checker whose key is an asymmetric JWK with use=enc: every token naming the key's algorithm is accepted unverified"),
+ "C01-D": ("C01", "same idea as C12-B: GnuTLS verify keeps the last imported public key in file-scope statics keyed by the item's address", "key rotation within one process (free K1, load K2 at the same address)"),
  "C02-A": ("C02", "same change as C01-A (chosen independently by the C02 agent)", "as C01-A"),
  "C02-B": ("C02", "jwt_checker_verify skips the post-callback __setkey_check when the callback left the key unchanged", "a callback that changes only config->alg"),
  "C03-A": ("C03", "same change as C01-A (chosen independently by the C03 agent)", "as C01-A"),
